@@ -26,29 +26,33 @@ NAMES = ["unparser", "expr_wrapper", "if_style"]
 BAD_VALUES = ["", "lists", "oneliner ", "None"]
 
 
-def gen_history(rng, maxlen=6):
+def gen_history(rng, maxlen=7):
     n = rng.randint(2, maxlen)
     h = []
     nobj = 0
+    alive = []
     for i in range(n):
         r = rng.random()
-        if nobj == 0 and r < 0.8 or r < 0.15:
+        if not alive and r < 0.8 or r < 0.15:
             h.append(["new"])
+            alive.append(nobj)
             nobj += 1
-        elif r < 0.5 and nobj:
+        elif r < 0.5 and alive:
             name = rng.choice(NAMES)
             if rng.random() < 0.15:
                 val = rng.choice(BAD_VALUES + OPTS[rng.choice(NAMES)])
             else:
                 val = rng.choice(OPTS[name])
-            h.append(["set", rng.randrange(nobj), name, val])
-        elif r < 0.92:
-            o = None if (nobj == 0 or rng.random() < 0.3) else rng.randrange(nobj)
+            h.append(["set", rng.choice(alive), name, val])
+        elif r < 0.85:
+            o = None if (not alive or rng.random() < 0.3) else rng.choice(alive)
             h.append(["convert", o, rng.randrange(len(PROGRAMS))])
+        elif r < 0.93 and alive:
+            h.append(["drop", alive.pop(rng.randrange(len(alive)))])
         else:
             h.append(["reseed", rng.randrange(1000)])
     if not any(a[0] == "convert" for a in h):
-        h.append(["convert", None if nobj == 0 else rng.randrange(nobj), rng.randrange(len(PROGRAMS))])
+        h.append(["convert", None if not alive else rng.choice(alive), rng.randrange(len(PROGRAMS))])
     return h
 
 
@@ -76,6 +80,12 @@ def structured_histories():
                 yield [["new"], ["new"], ["convert", 0, pi], ["set", 1, name, v2], ["convert", 1, pi], ["convert", 0, pi]]
                 yield [["new"], ["convert", 0, pi], ["set", 0, name, v2], ["reseed", 7], ["convert", 0, pi],
                        ["convert", None, pi]]
+                # a helper makes its own options object, converts and forgets it; then a fresh object and an option-less call
+                yield [["new"], ["set", 0, name, v2], ["convert", 0, pi], ["drop", 0], ["new"], ["convert", 1, pi],
+                       ["convert", None, pi]]
+                yield [["churn", name, v2, 64], ["convert", None, pi], ["new"], ["convert", 0, pi]]
+                yield [["new"], ["new"], ["set", 0, name, v2], ["set", 1, name, v2], ["drop", 0], ["drop", 1], ["convert", None, pi],
+                       ["new"], ["new"], ["new"], ["convert", 2, pi], ["convert", 3, pi], ["convert", 4, pi]]
 
 
 DEFAULTS = {"unparser": "ast.unparse", "expr_wrapper": "chain_call", "if_style": "if_expr"}
@@ -92,7 +102,7 @@ def hist_sexp(h):
         elif a[0] == "convert":
             parts.append("(convert %s)" % ("()" if a[1] is None else f"({a[1]})"))
         else:
-            parts.append("(reseed)")
+            parts.append("(reseed)")          # reseed / drop: no effect on the options of any object (one output slot)
     return "(cfg-hist (%s))" % " ".join(parts)
 
 
@@ -200,6 +210,10 @@ def run(chk, build, replay=None):
             if a[0] == "set":
                 if a[2] in NAMES and ro != mo:
                     mism = (i, f"set returned {ro}, model says {mo}")
+            elif a[0] == "churn":
+                want = [[DEFAULTS[n] for n in NAMES]]
+                if not (isinstance(ro, dict) and ro.get("fresh_option_values") == want):
+                    mism = (i, f"fresh options objects do not read the defaults after other objects were dropped: {ro}")
             elif a[0] == "convert":
                 if not isinstance(ro, dict):
                     mism = (i, f"conversion failed: {ro}")
